@@ -1,5 +1,6 @@
 import XmppVerif.Drv.Core
 import XmppVerif.Drv.Recv
+import XmppVerif.Drv.Neg
 import XmppVerif.Drv.C06
 import XmppVerif.Drv.C10
 import XmppVerif.Drv.C15
@@ -13,6 +14,9 @@ import XmppVerif.Drv.C20
 open XmppVerif.Drv
 
 def handlers : List (String × Handler) := [
+  ("C03", XmppVerif.Drv.Neg.handlerC03),
+  ("C04", XmppVerif.Drv.Neg.handlerC04),
+  ("C11", XmppVerif.Drv.Neg.handlerC11),
   ("C05", XmppVerif.Drv.Recv.handlerC05),
   ("C09", XmppVerif.Drv.Recv.handlerC09),
   ("C12", XmppVerif.Drv.Recv.handlerC12),
